@@ -137,3 +137,62 @@ func VerifC17ExtensionsNoCrash() {
 	_ = p.Parse(lines)
 	vCover("parsed")
 }
+
+func init() { vRegister("VerifC17ItemsLevels", VerifC17ItemsLevels) }
+
+// C17 (faithfulness, "validation tags at items depth"): a validation line prefixed with items. (once per
+// nesting level) is read by the tagger of that items level - for slices of values and of pointers alike -
+// and an unprefixed line by the field's own tagger
+func VerifC17ItemsLevels() {
+	depth := 1 + vChoice("depth", 2)
+	ptrElem := vBool2("pointerElement")
+	var elt ast.Expr = ast.NewIdent("string")
+	if ptrElem {
+		elt = &ast.StarExpr{X: elt}
+	}
+	leaf := &spec.Schema{}
+	leaf.Typed("string", "")
+	cur := leaf
+	var typ ast.Expr = elt
+	for d := 0; d < depth; d++ {
+		arr := &spec.Schema{}
+		arr.Typed("array", "")
+		arr.Items = &spec.SchemaOrArray{Schema: cur}
+		cur = arr
+		typ = &ast.ArrayType{Elt: typ}
+	}
+	sb := &schemaBuilder{}
+	sp := sb.createParser("field", &spec.Schema{}, cur, &ast.Field{Type: typ})
+	vAssert(sp != nil, "no parser")
+	if sp == nil {
+		return
+	}
+	vCover("built")
+	level := vChoice("level", depth+1) // 0: the field itself, k: k-th items level
+	kw := []struct{ text, suffix string }{{"min length: 3", "MinLength"}, {"max length: 7", "MaxLength"}, {"pattern: ^a$", "Pattern"}}[vChoice("keyword", 3)]
+	line := ""
+	for i := 0; i < level; i++ {
+		line += "items."
+	}
+	line += kw.text
+	first := ""
+	for _, tg := range sp.taggers {
+		t := tg
+		if t.Matches(line) {
+			first = t.Name
+			break
+		}
+	}
+	vObserve("first", first)
+	want := "items" + string(rune('0'+level-1)) + kw.suffix
+	if level == 0 {
+		want = []string{"minLength", "maxLength", "pattern"}[0]
+		switch kw.suffix {
+		case "MaxLength":
+			want = "maxLength"
+		case "Pattern":
+			want = "pattern"
+		}
+	}
+	vAssert(first == want, "a validation line is not read at the items depth it was written for")
+}
